@@ -1315,6 +1315,51 @@ class FlowIR(object):
     stageOptions = ['continue-on-error', 'stage-name']
 
     VariablePattern = r'%\([a-zA-Z0-9_.-]+\)s'
+
+    # VV: The characters which a reference to a component/path may consist of (see discover_reference_strings())
+    ReferenceTokenCharacters = r'.a-zA-Z0-9_/-'
+
+    @classmethod
+    def _find_whole_reference(cls, text, reference, start=0):
+        # type: (str, str, int) -> int
+        """Index of the first occurrence of @reference in @text (at or after @start) which is a whole reference token.
+
+        An occurrence which is the tail of a longer token does not count, e.g. "A:ref" inside "BA:ref" or inside
+        "stage1.A:ref". Returns -1 if there is no such occurrence.
+        """
+        while True:
+            idx = text.find(reference, start)
+            if idx <= 0:
+                return idx
+            # VV: the character before the occurrence - one of [.a-zA-Z0-9_/-] means that this is the tail of a longer token
+            previous = ord(text[idx - 1])
+            if not (48 <= previous <= 57 or 65 <= previous <= 90 or 97 <= previous <= 122 or previous in (45, 46, 47, 95)):
+                return idx
+            start = idx + 1
+
+    @classmethod
+    def contains_reference(cls, text, reference):
+        # type: (str, str) -> bool
+        return cls._find_whole_reference(text, reference) != -1
+
+    @classmethod
+    def replace_reference(cls, text, reference, replacement):
+        # type: (str, str, str) -> str
+        """Replaces the occurrences of @reference in @text which are whole reference tokens with @replacement"""
+        if not reference:
+            return text
+
+        parts = []
+        start = 0
+        while True:
+            idx = cls._find_whole_reference(text, reference, start)
+            if idx == -1:
+                break
+            parts.append(text[start:idx])
+            parts.append(replacement)
+            start = idx + len(reference)
+        parts.append(text[start:])
+        return ''.join(parts)
     VariablePatternIncomplete = r'%\([a-zA-Z0-9_\.-]+\)(^s)?'
 
     (
@@ -1497,7 +1542,7 @@ class FlowIR(object):
                         producer=producer, filename=filename, method=method)
                     update_refs.append(extra_ref)
                 for ref in update_refs:
-                    expression = re.compile(r"%s((?:/[\w.*]+)+,*)?" % re.escape(ref))
+                    expression = re.compile(r"(?<![%s])%s((?:/[\w.*]+)+,*)?" % (cls.ReferenceTokenCharacters, re.escape(ref)))
                     orig_string = string
                     m = expression.search(string)
                     if m is not None:
@@ -1516,7 +1561,7 @@ class FlowIR(object):
                             replacement = separator.join(replacement)
                             string = expression.sub(replacement, string)
                         else:
-                            string = string.replace(ref, " ".join(translation_map[ref]))
+                            string = cls.replace_reference(string, ref, " ".join(translation_map[ref]))
                         if string != orig_string:
                             # VV: if we replaced the Absolute ref we must skip replacing the relative ref becuase
                             # we'll end up with stage<idx>.stage<idx>.<component name>
@@ -1581,7 +1626,7 @@ class FlowIR(object):
         def translation_func(string):
             # type: (str) -> str
             for original in sorted_translation:
-                string = string.replace(original, translation[original])
+                string = cls.replace_reference(string, original, translation[original])
 
             return string
 
